@@ -10,24 +10,6 @@ Open Scope N_scope.
 Definition text_undenotable (tok : list N) : bool :=
   text_spelling tok && match text_lit tok with Some _ => false | None => true end.
 
-(* kf-c07-bytes-nongrammar-ws: outside comments, a character that char::is_whitespace drops although it is not
-   whitespace of the grammar (U+000B, U+000C, U+0085, U+00A0, U+1680, U+2000-200A, U+2028, U+2029, U+202F, U+205F, U+3000) *)
-Fixpoint extra_ws (in_comment : bool) (s : list N) : bool :=
-  match s with
-  | [] => false
-  | c :: r =>
-    if in_comment then extra_ws (negb (c =? 10)) r
-    else if c =? 59 then extra_ws true r
-    else (is_rust_ws c && negb (is_ws c)) || extra_ws false r
-  end.
-
-(* kf-c07-b64-inner-padding: a '=' that is followed by a character other than '=' *)
-Fixpoint inner_pad (s : list N) : bool :=
-  match s with
-  | a :: (b :: _) as r => ((a =? 61) && negb (b =? 61)) || inner_pad r
-  | _ => false
-  end.
-
 (* kf-c07-bytes-escapes-not-processed: an unprefixed byte string containing a backslash *)
 Definition has_backslash (s : list N) : bool := existsb (N.eqb 92) s.
 
@@ -126,20 +108,18 @@ Definition eval_text (s : list N) :=
       (text_spelling s) (bit (text_undenotable s)).
 Definition eval_b16 (s : list N) :=
   out (r_bytes [66; 72] (bytes_b16_model s) ERR) (r_bytes [66; 72] (bytes_b16_model s) ERR) (r_bytes [66; 72] (b16_lit s) ERR)
-      (bytes_b16_spelling s) (bit (extra_ws false (b16_content s))).
+      (bytes_b16_spelling s) [].
 Definition eval_b64 (s : list N) :=
   out (r_bytes [66; 66] (bytes_b64_model s) ERR) (r_bytes [66; 66] (bytes_b64_model s) ERR) (r_bytes [66; 66] (b64_lit s) ERR)
-      (bytes_b64_spelling s)
-      (bit (extra_ws false (b64_content s)) ++ bit (inner_pad (strip_ws_comments false (b64_content s)))).
+      (bytes_b64_spelling s) [].
 Definition eval_butf8 (s : list N) :=
   out (r_text [66; 85] (Some (bytes_utf8_chars s)) ERR) (r_text [66; 85] (Some (bytes_utf8_chars s)) ERR)
       (r_text [66; 85] (bytes_text_lit s) NONE) (bytes_utf8_spelling s) (bit (has_backslash (bytes_utf8_chars s))).
 Definition FIN : list N := [70; 73; 78].
-Definition INF : list N := [73; 78; 70].
 Definition eval_float (s : list N) :=
-  let m := match float_model_class s with Some FFinite => FIN | Some FInfinite => INF | None => ERR end in
-  let sp := match float_model_class s with Some FFinite => FIN | Some FInfinite => NONE | None => ERR end in
-  out m m sp (float_spelling s) (bit (match float_model_class s with Some FInfinite => true | _ => false end)).
+  let m := match float_model_class s with Some FFinite => FIN | _ => ERR end in
+  let sp := match parsed_class s with Some FFinite => FIN | Some FInfinite => ERR | None => ERR end in
+  out m m sp (float_spelling s) [].
 Definition eval_hexfloat (s : list N) := out [63] [63] [63] (hexfloat_spelling s) [].      (* differential only *)
 
 (* number = { hexfloat | float_value | int_value | uint_value }: K:<kind>| then that kind's line *)
